@@ -352,6 +352,18 @@ Theorem C09_the_file_after_a_foreign_node_is_placed_under_an_emdpath_in_closed_f
 Proof. exact foreign_node_closed_form. Qed.
 Print Assumptions C09_the_file_after_a_foreign_node_is_placed_under_an_emdpath_in_closed_form.
 
+Theorem C09_the_file_after_an_appendover_of_an_inner_node_alone_in_closed_form :
+  forall c0 m root q x pk km data md,
+    In md appendovermode ->
+    rcls m = CRoot -> rname root = rname m -> rmds root = [] -> ok_tree m ->
+    rwalk m q = Some pk -> rwalk m (q ++ [x]) = Some km ->
+    rwalk root (q ++ [x]) = Some data -> rname data = x ->
+    compat_ao (RN CNode "" 0%Z 0 [] [with_kids data []]) (shallow_links pk) (rkids pk) ->
+    append_existing root (q ++ [x]) (WA md (Some false) None) md (whole_file c0 m)
+    = Ok (whole_file c0 (rsubst q m (with_kids pk (aom (RN CNode "" 0%Z 0 [] [with_kids data []]) (rkids pk))))).
+Proof. exact inner_node_appendover_alone_closed_form. Qed.
+Print Assumptions C09_the_file_after_an_appendover_of_an_inner_node_alone_in_closed_form.
+
 Example C09_closed_form_example :
   let m := RN CRoot "r" 0%Z 0 [] [RN CNode "a" 0%Z 0 [] [RN CNode "b" 0%Z 0 [] [RN CNode "x" 0%Z 0 [] []]; RN CNode "s" 0%Z 0 [] []]] in
   let d2 := RN CNode "b" 0%Z 0 [] [RN CNode "y" 0%Z 0 [] []] in
